@@ -452,7 +452,11 @@ impl TxInputsBuilder {
     }
 
     fn push_input(&mut self, e: (TxBuilderInput, Option<ScriptHash>)) {
-        self.inputs.insert(e.0.input.clone(), e);
+        // a zero quantity or a policy without assets in the amount given for a UTxO stands for nothing; kept, it would be
+        // copied into the change output (or the collateral return), which the ledger then rejects
+        let (mut input, script_hash) = e;
+        input.amount = input.amount.without_empty_entries();
+        self.inputs.insert(input.input.clone(), (input, script_hash));
     }
 
     fn insert_input_with_witness(
